@@ -268,7 +268,7 @@ class Ctx:
         with open(inp) as fi:
             try:
                 r = subprocess.run([exe], stdin=fi, capture_output=True, text=True, env=e,
-                                   timeout=int(os.environ.get("VERIF_OP_TIMEOUT", "900")))
+                                   timeout=int(os.environ.get("VERIF_OP_TIMEOUT", "150" if self.tier == "quick" else "900")))
             except subprocess.TimeoutExpired as ex:
                 class R:
                     pass
@@ -285,7 +285,9 @@ class Ctx:
         self.n_c += len(ops)
         start = 0
         while start < len(ops):
-            if len(self.aborts) >= ABORT_BUDGET:
+            # a run that does not finish (possible non-termination) costs as much as fifteen aborts: two of them end
+            # the exploration
+            if len(self.aborts) + 14 * sum(1 for a_ in self.aborts if "TIMEOUT" in a_["kind"]) >= ABORT_BUDGET:
                 if self.in_evaluator:
                     raise AbortBudget()
                 out += ["notrun"] * (len(ops) - start)
